@@ -60,8 +60,6 @@ theorem depthAfter_balanced {w : Str} (h : balanced w = true) (d : Nat) : depthA
   have h0 : depthAfter 0 w = some 0 := by simpa [balanced] using h
   simpa using depthAfter_shift w 0 0 d h0
 
-def braceFree (w : Str) : Bool := w.all fun c => c != '{' && c != '}'
-
 theorem depthAfter_braceFree {w : Str} (h : braceFree w = true) (d : Nat) : depthAfter d w = some d := by
   induction w with
   | nil => rfl
